@@ -38,6 +38,7 @@ type fnSpec struct {
 	fuelled          bool              // a recursive traversal: emitted with a fuel argument (0 = stop)
 	named            string            // name of the named result a bare `return` yields ("" = none)
 	mapVar           string            // the map a fold-loop updates
+	closure          string            // translate the function literal assigned to this local of the function, not the function itself
 	state            string            // Go expression of the list a void function updates in place ("" = none); Lean name `files`
 	ints             map[string]bool   // locals / parameters that are Go ints (Lean Int)
 	rn               string            // the receiver's name in the dictionary ("" = receiver not mentioned)
@@ -165,6 +166,11 @@ func (c *cg) expr(e ast.Expr) string {
 		}
 	}
 	switch x := e.(type) {
+	case *ast.IndexExpr:
+		// m[k] on a map the dictionary knows how to read ("get:m")
+		if f, ok := c.s.calls["get:"+exprText(x.X)]; ok {
+			return "(" + f + " " + c.expr(x.X) + " " + c.expr(x.Index) + ")"
+		}
 	case *ast.ParenExpr:
 		return "(" + c.expr(x.X) + ")"
 	case *ast.BinaryExpr:
@@ -316,6 +322,18 @@ func (c *cg) ret(r *ast.ReturnStmt) string {
 			return c.fail("return with %d results", len(r.Results))
 		}
 		return "(cache, " + c.expr(r.Results[0]) + ")"
+	case "errv":
+		// a function that returns a plain value but stops the run (CheckErr) on an error on the way
+		if len(r.Results) != 1 {
+			return c.fail("return with %d results", len(r.Results))
+		}
+		return "(Except.ok " + c.expr(r.Results[0]) + ")"
+	case "mapret":
+		// a closure that returns a value and has updated the map it captured: (value, map afterwards)
+		if len(r.Results) != 1 {
+			return c.fail("return with %d results", len(r.Results))
+		}
+		return "(" + c.expr(r.Results[0]) + ", " + leanIdent(c.s.mapVar) + ")"
 	case "opt":
 		if len(r.Results) != 1 {
 			return c.fail("return with %d results", len(r.Results))
@@ -618,6 +636,69 @@ func (c *cg) runLoop(f *ast.ForStmt) (string, bool) {
 	return "let " + vn + " := " + vn + " + Int.ofNat (List.length (List.takeWhile (fun x_ => !" + pred + ") (List.drop (Int.toNat (" + vn + " + 1)) " + l + ")))", true
 }
 
+// foldErrLoop: `for _, x := range L { if C(x) { v, err = F(x, v); p.CheckErr(err, ...) } }` - a fold over L
+// that threads v through the elements satisfying C and stops the run at the first error
+func (c *cg) foldErrLoop(r *ast.RangeStmt) (string, string, bool) {
+	x, ok := r.Value.(*ast.Ident)
+	if !ok || len(r.Body.List) != 1 || (c.s.mode != "errv" && c.s.mode != "err") {
+		return "", "", false
+	}
+	ifs, ok := r.Body.List[0].(*ast.IfStmt)
+	if !ok || ifs.Init != nil || ifs.Else != nil || len(ifs.Body.List) != 2 {
+		return "", "", false
+	}
+	as, ok := ifs.Body.List[0].(*ast.AssignStmt)
+	if !ok || as.Tok != token.ASSIGN || len(as.Lhs) != 2 || len(as.Rhs) != 1 || exprText(as.Lhs[1]) != "err" {
+		return "", "", false
+	}
+	v, ok := as.Lhs[0].(*ast.Ident)
+	if !ok || !c.s.locals[v.Name] {
+		return "", "", false
+	}
+	chk, ok := ifs.Body.List[1].(*ast.ExprStmt)
+	if !ok {
+		return "", "", false
+	}
+	call, ok := chk.X.(*ast.CallExpr)
+	if !ok || !strings.HasSuffix(exprText(call.Fun), ".CheckErr") || len(call.Args) < 1 || exprText(call.Args[0]) != "err" {
+		return "", "", false
+	}
+	l := c.expr(r.X)
+	c.s.locals[x.Name] = true
+	vn, xn := leanIdent(v.Name), leanIdent(x.Name)
+	cond := c.expr(ifs.Cond)
+	step := c.expr(as.Rhs[0])
+	return "match List.foldlM (fun " + vn + " " + xn + " => if " + cond + " then " + step + " else (Except.ok " + vn + ")) " + vn + " " + l + " with", vn, true
+}
+
+// whileLoop: `for COND { v += E }` / `for COND { v = E }` - a loop whose whole state is the one local
+// it updates.  Go runs it until COND fails; the translation takes the number of rounds it may run from
+// the function's `fuel_` parameter (the tie theorems supply enough).
+func (c *cg) whileLoop(f *ast.ForStmt) (string, bool) {
+	if f.Init != nil || f.Post != nil || f.Cond == nil || len(f.Body.List) != 1 {
+		return "", false
+	}
+	as, ok := f.Body.List[0].(*ast.AssignStmt)
+	if !ok || len(as.Lhs) != 1 || len(as.Rhs) != 1 {
+		return "", false
+	}
+	v, ok := as.Lhs[0].(*ast.Ident)
+	if !ok || !(c.s.locals[v.Name] || c.s.exprs[v.Name] == leanIdent(v.Name)) {
+		return "", false
+	}
+	var next string
+	switch as.Tok {
+	case token.ASSIGN:
+		next = c.expr(as.Rhs[0])
+	case token.ADD_ASSIGN:
+		next = c.expr(&ast.BinaryExpr{X: v, Op: token.ADD, Y: as.Rhs[0]})
+	default:
+		return "", false
+	}
+	vn := leanIdent(v.Name)
+	return "let " + vn + " := whileFuel (fun " + vn + " => " + c.expr(f.Cond) + ") (fun " + vn + " => " + next + ") fuel_ " + vn, true
+}
+
 // elemPred translates a condition about the loop's current element `elem` (text, e.g. "f[i]"):
 // calls `elem.M()` are looked up in the dictionary under "elem.M()" with elem written as `$x`
 func (c *cg) elemPred(e ast.Expr, elem string) string {
@@ -709,11 +790,17 @@ func (c *cg) stmts(list []ast.Stmt, k func(ind string) string, ind string) strin
 		if out, ok := c.foldAssignLoop(s); ok {
 			return ind + out + "\n" + rest(ind)
 		}
+		if head, v, ok := c.foldErrLoop(s); ok {
+			return ind + head + "\n" + ind + "| .error err => (Except.error err)\n" + ind + "| .ok " + v + " =>\n" + rest(ind+"  ")
+		}
 		return ind + c.fail("range loop of an unknown shape")
 	case *ast.ForStmt:
 		// `for i := E + 1; i < len(L); i++ { if C(L[i]) { break }; V = i }`: V advances over the run of
 		// elements after position E for which C is false (V = E before the loop)
 		if out, ok := c.runLoop(s); ok {
+			return ind + out + "\n" + rest(ind)
+		}
+		if out, ok := c.whileLoop(s); ok {
 			return ind + out + "\n" + rest(ind)
 		}
 		return ind + c.fail("for loop of an unknown shape")
@@ -771,6 +858,15 @@ func (c *cg) stmts(list []ast.Stmt, k func(ind string) string, ind string) strin
 			}
 			if ix, ok := s.Lhs[0].(*ast.IndexExpr); ok && exprText(ix.X) == c.s.state {
 				return ind + "let files := List.set files (Int.toNat " + c.expr(ix.Index) + ") " + c.expr(s.Rhs[0]) + "\n" + rest(ind)
+			}
+		}
+		// `m[k] = v` on a map the dictionary knows how to update ("set:m")
+		if len(s.Lhs) == 1 && len(s.Rhs) == 1 && s.Tok == token.ASSIGN {
+			if ix, ok := s.Lhs[0].(*ast.IndexExpr); ok {
+				if f, ok := c.s.calls["set:"+exprText(ix.X)]; ok {
+					m := c.expr(ix.X)
+					return ind + "let " + m + " := (" + f + " " + m + " " + c.expr(ix.Index) + " " + c.expr(s.Rhs[0]) + ")\n" + rest(ind)
+				}
 			}
 		}
 		// `x, _ := call`: the first component of the pair the call yields
@@ -1023,6 +1119,18 @@ func translate(repo string, s *fnSpec) (string, error) {
 	if fd == nil {
 		return "", fmt.Errorf("%s: function %s.%s not found", s.file, s.recv, s.name)
 	}
+	if s.closure != "" {
+		var lit *ast.FuncLit
+		for _, st := range fd.Body.List {
+			if as, ok := st.(*ast.AssignStmt); ok && as.Tok == token.DEFINE && len(as.Lhs) == 1 && len(as.Rhs) == 1 && exprText(as.Lhs[0]) == s.closure {
+				lit, _ = as.Rhs[0].(*ast.FuncLit)
+			}
+		}
+		if lit == nil {
+			return "", fmt.Errorf("%s: %s has no function literal %s", s.file, s.name, s.closure)
+		}
+		fd = &ast.FuncDecl{Name: ast.NewIdent(s.closure), Type: lit.Type, Body: lit.Body}
+	}
 	s.locals = map[string]bool{}
 	c := &cg{s: s}
 	// the dictionary speaks of the receiver and the parameters under fixed names: a function whose
@@ -1250,6 +1358,12 @@ func codeSpecs() []*fnSpec {
 		perSpec("insertFile", "persister_insertFile", "(files : List RespFile) (f : RespFile) (overwrite : Bool)", "List RespFile", "", []string{"resp", "f", "overwrite"}),
 		perSpec("insertAppend", "persister_insertAppend", "(files : List RespFile) (name : Pgs.Bytes) (f : RespFile)", "Except Pgs.Bytes (List RespFile)", "err", []string{"resp", "name", "f"}),
 		// C12: writeFile
+		// postProcess: the matching processors in registration order, each fed what the one before produced; the first error stops the run
+		{file: "persister.go", recv: "stdPersister", name: "postProcess", lean: "persister_postProcess", rn: "p", pn: []string{"a", "in"}, mode: "errv",
+			binders: "(procs : List Pgs.Persist.Proc) (kind : Nat) (in_ : Pgs.Bytes)", ret: "Except Pgs.Persist.Cause Pgs.Bytes",
+			exprs: map[string]string{"p.procs": "procs", "in": "in_", "pp.Match(a)": "(pp.kinds.contains kind)",
+				"pp.Process(b)": "(if pp.fails then (Except.error Pgs.Persist.Cause.postProcess) else (Except.ok (pp.apply b)))"},
+			calls: map[string]string{"[]byte": "id", "string": "id"}},
 		{file: "persister.go", recv: "stdPersister", name: "writeFile", lean: "persister_writeFile", rn: "p", pn: []string{"name", "content", "overwrite", "perms"},
 			binders: "(files : Pgs.Persist.FS) (name content : Pgs.Bytes) (overwrite : Bool) (perms : Nat)", ret: "Pgs.Persist.FS", state: "p.fs",
 			exprs: map[string]string{"name": "name", "content": "content", "overwrite": "overwrite", "perms": "perms", "0755": "493"},
@@ -1333,6 +1447,12 @@ func codeSpecs() []*fnSpec {
 		gnSpec("joinNames", "", "go_joinNames", "(a b : Pgs.Bytes)", []string{"a", "b"}),
 		gnSpec("joinChild", "", "go_joinChild", "(a b : Pgs.Bytes)", []string{"a", "b"}),
 		gnSpec("replaceProtected", "", "go_replaceProtected", "(n : Pgs.Bytes)", []string{"n"}),
+		// the closure `unique` of uniqueNames: underscores until the name (and, for a field, its getter) is free; then both are taken
+		{file: "lang/go/name.go", recv: "", name: "uniqueNames", closure: "unique", lean: "go_unique", pn: []string{"n", "getter"}, mode: "mapret", mapVar: "used",
+			binders: "(used : Pgs.GoNames.Used) (fuel_ : Nat) (n : Pgs.Bytes) (getter : Bool)", ret: "Pgs.Bytes × Pgs.GoNames.Used",
+			exprs: map[string]string{"n": "n", "getter": "getter", "used": "used"},
+			calls: map[string]string{"get:used": "Pgs.GoNames.Used.get", "set:used": "Pgs.GoNames.Used.set"},
+			doc:   " - the function literal `unique`"},
 		gnSpec("ServerName", "context", "context_ServerName", "(serviceName : Pgs.Bytes)", []string{"s"}),
 		gnSpec("ClientName", "context", "context_ClientName", "(serviceName : Pgs.Bytes)", []string{"s"}),
 		gnSpec("ServerStream", "context", "context_ServerStream", "(serviceName methodName : Pgs.Bytes)", []string{"m"}),
@@ -1691,6 +1811,42 @@ func workflowSteps(repo string) (string, error) {
 		{"generator.go", "Generator", "AST"}, {"generator.go", "Generator", "Render"}})
 }
 
+// persister.go: the steps of Persist - the loop over the artifacts and, per artifact type, what is done with it
+func persistSteps(repo string) (string, error) {
+	t, err := stepTable(repo, "persistSteps", "persister.go", []stepTarget{{"persister.go", "stdPersister", "Persist"}})
+	if err != nil {
+		return "", err
+	}
+	// the clauses of the type switch, each with its own steps (brackets inside a clause kept)
+	var arms []string
+	var cur []string
+	head, depth := "", 0
+	for _, st := range lastSteps["stdPersister.Persist"] {
+		switch {
+		case head == "":
+			if strings.HasPrefix(st, "case ") || st == "default {" {
+				head, cur, depth = st, nil, 0
+			}
+		case st == "}" && depth == 0:
+			var q []string
+			for _, x := range cur {
+				q = append(q, strconv.Quote(x))
+			}
+			arms = append(arms, fmt.Sprintf("(%q, [%s])", strings.TrimSuffix(strings.TrimPrefix(head, "case "), " {"), strings.Join(q, ",\n     ")))
+			head = ""
+		default:
+			if st == "}" {
+				depth--
+			} else if strings.HasSuffix(st, "{") {
+				depth++
+			}
+			cur = append(cur, st)
+		}
+	}
+	return t + "/-- persister.go: the clauses of Persist's type switch, by the type they handle -/\n" +
+		"def persistArms : List (String × List String) :=\n  [" + strings.Join(arms, ",\n   ") + "]\n", nil
+}
+
 // comment.go: the steps of C, C80 and commentScanner, and the constants they are written with
 func commentSteps(repo string) (string, error) {
 	t, err := stepTable(repo, "commentSteps", "comment.go", []stepTarget{{"comment.go", "", "C"}, {"comment.go", "", "C80"}, {"comment.go", "", "commentScanner"}})
@@ -1721,6 +1877,9 @@ func commentSteps(repo string) (string, error) {
 		"def commentPrefix : List Nat := " + bytesLit(prefix) + "   -- " + strconv.Quote(prefix) + "\n" +
 		"def commentWidthOffset : Nat := " + off + "\n", nil
 }
+
+// the raw step lists of the functions stepTable has read (for tables derived from them)
+var lastSteps = map[string][]string{}
 
 func stepTable(repo, defName, what string, targets []stepTarget) (string, error) {
 	callText := func(c *ast.CallExpr) string {
@@ -1815,6 +1974,26 @@ func stepTable(repo, defName, what string, targets []stepTarget) (string, error)
 					if x.Else != nil {
 						return fmt.Errorf("%s.%s: else branch", t.recv, t.name)
 					}
+				case *ast.TypeSwitchStmt:
+					// `switch a := a.(type)`: one bracket per clause, named by the types it lists
+					for _, cl := range x.Body.List {
+						cc := cl.(*ast.CaseClause)
+						var ts []string
+						for _, t := range cc.List {
+							ts = append(ts, exprText(t))
+						}
+						if cc.List == nil {
+							steps = append(steps, "default {")
+						} else {
+							steps = append(steps, "case "+strings.Join(ts, ", ")+" {")
+						}
+						if err := walk(cc.Body); err != nil {
+							return err
+						}
+						steps = append(steps, "}")
+					}
+				case *ast.BranchStmt:
+					steps = append(steps, x.Tok.String())
 				case *ast.ReturnStmt:
 					if len(x.Results) == 0 {
 						steps = append(steps, "return")
@@ -1841,6 +2020,7 @@ func stepTable(repo, defName, what string, targets []stepTarget) (string, error)
 			q = append(q, strconv.Quote(st))
 		}
 		out = append(out, fmt.Sprintf("(%q, [%s])", t.recv+"."+t.name, strings.Join(q, ",\n     ")))
+		lastSteps[t.recv+"."+t.name] = steps
 	}
 	return "/-- " + what + ": the effectful steps of each function, in source order (messages and Debug calls left out) -/\n" +
 		"def " + defName + " : List (String × List String) :=\n  [" + strings.Join(out, ",\n   ") + "]\n", nil
@@ -1956,6 +2136,8 @@ func genCode(repo string) (map[string]string, error) {
 	b.WriteString("/-- names are ASCII identifiers: the first rune is the first byte -/\n")
 	b.WriteString("def decodeRuneAscii (s : Pgs.Bytes) : Nat × Nat := (s.head?.getD 0, 1)\n")
 	b.WriteString("def isLetterAscii (c : Nat) : Bool := Pgs.GoNames.isLower c || (65 ≤ c && c ≤ 90)\n")
+	b.WriteString("/-- `for cond(s) { s = body(s) }`, for at most the given number of rounds -/\n")
+	b.WriteString("def whileFuel {σ : Type} (cond : σ → Bool) (body : σ → σ) : Nat → σ → σ\n  | 0, s => s\n  | f + 1, s => if cond s then whileFuel cond body f (body s) else s\n")
 	b.WriteString("def lookupTbl (t : List (Pgs.Bytes × Pgs.Bytes)) (k : Pgs.Bytes) : Option Pgs.Bytes := (t.find? (·.1 == k)).map (·.2)\n")
 	b.WriteString("/-- a prefixedDebugger, as far as its output goes, is the prefix string it stores -/\n")
 	b.WriteString("def mkPrefixedDebugger (parent : Unit) (prefix_ : Pgs.Bytes) : Pgs.Bytes := prefix_\n")
@@ -2004,7 +2186,7 @@ func genCode(repo string) (map[string]string, error) {
 	tables := []struct {
 		name string
 		gen  func(string) (string, error)
-	}{{"nameHelpers", nameHelpers}, {"acceptOrders", acceptOrders}, {"typePredicates", typePredicates}, {"hydratePhases", hydratePhases}, {"childAtPaths", childAtPaths}, {"workflowSteps", workflowSteps}, {"commentSteps", commentSteps}}
+	}{{"nameHelpers", nameHelpers}, {"acceptOrders", acceptOrders}, {"typePredicates", typePredicates}, {"hydratePhases", hydratePhases}, {"childAtPaths", childAtPaths}, {"workflowSteps", workflowSteps}, {"commentSteps", commentSteps}, {"persistSteps", persistSteps}}
 	for _, g := range tables {
 		t, err := g.gen(repo)
 		if err != nil {
